@@ -111,6 +111,19 @@ fixed("C02", "C02:row-longer-than-terminal", "4b0533d",
       [{"rows": 2, "cols": 3, "hide_cursor": True, "steps": [
           {"op": "render", "array": ["abcde", "fghij"], "as": "list", "cursor": [1, 1]}]}])
 
+fixed("C12", "C12:wakeup-fd-not-restored", "5284fd4",
+      "Input.__exit__ set the signal wake-up fd to -1 instead of restoring the one installed before",
+      [{"kind": "input", "cfg": {"sigint_event": False}, "app": True, "tty": "cooked", "body": ["send0"], "crash": None}])
+fixed("C12", "C12:interrupted-inside-nonblocking-restore", "0fb373e",
+      "a KeyboardInterrupt on entry to Nonblocking.__exit__ during a request left the stream O_NONBLOCK after the Input context",
+      [{"kind": "input", "cfg": {"sigint_event": True}, "tty": "cooked",
+        "body": ["send0", "ev", "send0", "send0", "unget", "send0", "sched", "send_s"], "crash": ["line", k]}
+       for k in range(40, 70)])
+fixed("C12", "C12:cursor-left-hidden", "4939ad5",
+      "with hide_cursor=False an exception in the middle of a render left the cursor hidden after the window context",
+      [{"kind": "full", "cfg": {"hide_cursor": False}, "body": [["render", 0, [1, 1]], ["render", 1, [0, 0]]],
+        "tty": "cooked", "crash": ["line", k]} for k in (20, 54, 80)])
+
 known("C03", "C03:prefix-then-undecodable-byte",
       "get_key raises UnicodeDecodeError for a table-sequence prefix (e.g. ESC) followed by a byte >= 0x80 "
       "that does not decode: ESC + any 8-bit byte under ascii, ESC + a UTF-8 lead/continuation byte under utf-8",
